@@ -215,8 +215,9 @@ theorem completion_order_collection_depends_on_schedule :
 /- FULL-STRENGTH STATEMENT (false for /repo as it stands):
      ∀ estimator method container arg result,
        callerAfter (effectOf estimator method container) arg result = arg
-   It fails for HampelFilter.transform (Series and DataFrame), Imputer(method="random").transform on
-   a DataFrame and the statsmodels adapters' fit on a Series with an Int64Index. -/
+   It fails for HampelFilter.transform (Series and DataFrame), Imputer(method="random" | "drift" |
+   "forecaster").transform on a DataFrame and the statsmodels adapters' fit (ExponentialSmoothing,
+   ThetaForecaster, AutoETS) on a Series with an Int64Index. -/
 
 /-- every site that is not in the table of known in-place sites leaves the caller's object alone -/
 theorem args_preserved_partial {V : Type} (estimator method container : String) (arg : ArgSnap V) (result : V)
